@@ -68,7 +68,7 @@ fn lr(r: &std::ops::Range<usize>) -> String {
     format!("({}, {})", r.start, r.end)
 }
 
-fn pblock(b: &DocumentBlock) -> String {
+pub fn pblock(b: &DocumentBlock) -> String {
     let inl = |l: &Vec<DocumentInline>| glist(&l.iter().map(pinl).collect::<Vec<_>>());
     let blocks = |l: &Vec<DocumentBlock>| glist(&l.iter().map(pblock).collect::<Vec<_>>());
     match b {
